@@ -29,12 +29,25 @@ func deleteChildOperator(d *dataTreeNavigator, context Context, expressionNode *
 		if parentNode.Kind == MappingNode {
 			deleteFromMap(candidate.Parent, childPath)
 		} else if parentNode.Kind == SequenceNode {
-			deleteFromArray(candidate.Parent, childPath)
+			// the key recorded on an element can be stale (sort, reverse, slices, collect, +
+			// keep the index an element had in its old container), so locate the element itself.
+			if index := indexOfChild(parentNode, candidate); index >= 0 {
+				deleteFromArray(candidate.Parent, index)
+			}
 		} else {
 			return Context{}, fmt.Errorf("cannot delete nodes from parent of tag %v", parentNode.Tag)
 		}
 	}
 	return context, nil
+}
+
+func indexOfChild(parent *CandidateNode, child *CandidateNode) int {
+	for index, content := range parent.Content {
+		if content == child {
+			return index
+		}
+	}
+	return -1
 }
 
 func removeFromContext(context Context, candidate *CandidateNode) (Context, error) {
